@@ -17,8 +17,10 @@ META = {
                   "dispatched later is dropped: c13_ready_iff_dispatched speaks of non-late dispatches, c13_late_only_after_expiry, c13_gives_up_only_after_expiry; expiry runs "
                   "with a slow peer are replayed in the model), by-value replies "
                   "dispatched in one step (a reply whose unboxing needs a nested round trip is C15's F48; since 5dce6c8 a reply that cannot be rebuilt fails its own request), "
-                  "incoming REPLIES only - incoming requests of the peer and exception replies are run by the harness (mixed phase: each peer request answered exactly once, each "
-                  "exception reply fails exactly its request) but are not in the transition system. Liveness: progress, plus POSSIBILITY from every reachable state (proofs/ServeF.v: c13_no_state_is_a_trap - wherever the reply is and whoever holds the "
+                  "incoming REPLIES - and incoming REQUESTS of the peer read as messages whose issuer is not looking (proofs/ServeI.v: c13_inbound_dispatch_frame, "
+                  "c13_inbound_absent_threads_never_needed: no continuation needs a step of a thread that is outside serve and not looking; the mixed and slow-handler runs are "
+                  "replayed in the model with a phantom issuer per peer request, the serving thread staying at S5 while the handler runs); exception replies are run by the harness "
+                  "only (each fails exactly its request). Liveness: progress, plus POSSIBILITY from every reachable state (proofs/ServeF.v: c13_no_state_is_a_trap - wherever the reply is and whoever holds the "
                   "receive lock, a continuation of thread steps, timeouts and the peer's answer takes the waiter out of wait(), Returned, or TimedOut only if its expiry "
                   "had already passed; c13_unexpired_request_can_still_complete); a guarantee under every scheduler ('every request completes') is refuted above for "
                   "deadline-free waits and not proved for the others. serve's instruction program and the ordering facts of wait/__call__/_async_request are "
@@ -46,6 +48,7 @@ class CallbackBoom(Exception):
 class VChan:
     def __init__(self, S, rec):
         self.S, self.inq, self.out, self.closed, self.rec = S, [], [], False, rec
+        self.on_request_read = None   # callable(thread, number): a thread read a REQUEST of the peer's own
         self.eof = False          # the peer has gone: end of stream once the queue is drained
 
     def poll(self, timeout):
@@ -63,7 +66,10 @@ class VChan:
         if not self.inq:
             raise EOFError("connection closed by peer")
         d = self.inq.pop(0)
-        self.rec(("step", self.S.me(), "read", brine.load(d)[1]))
+        m = brine.load(d)
+        if m[0] == consts.MSG_REQUEST and self.on_request_read is not None:
+            self.on_request_read(self.S.me(), m[1])
+        self.rec(("step", self.S.me(), "read", m[1]))
         return d
 
     def send(self, data):
@@ -93,6 +99,7 @@ def scenario(n_clients, with_bg, answer_order, chooser, sync_timeout=2.0, timeou
     out = {"res_obj": {}, "results": {}, "late": {}, "dispatch_time": {}, "dispatch_count": {}, "return_time": {}, "seq_of": {}, "errors": {}, "peer_requests": []}
     try:
         ch = VChan(S, rec)
+        ch.on_request_read = lambda me, q: out.setdefault("last_request_read", {}).__setitem__(me, q)
         conn = P.Connection(VoidService(), ch, {"sync_request_timeout": sync_timeout})
         conn._recvlock = VLock(S, "recvlock", on=lambda what, arg: rec(("step", S.me(), what, arg)))
         conn._recv_event = VCond(S, on=lambda what, arg: rec(("step", S.me(), what, arg)) if what == "notify_all" else (rec(("timeout", S.me())) if (what == "wait-return" and not arg) else None))
@@ -156,6 +163,18 @@ def scenario(n_clients, with_bg, answer_order, chooser, sync_timeout=2.0, timeou
                 seq_by_res[id(v)] = k
                 dict.__setitem__(self, k, v)
         conn._request_callbacks = RecDict()
+        if peer_requests or slow_request:
+            # the dispatch of a request of the peer's own: recorded when its handler has run (until then the serving thread is "at S5")
+            def _recording(handler):
+                def h(self_, *a):
+                    try:
+                        return handler(self_, *a)
+                    finally:
+                        rq = out.setdefault("last_request_read", {}).get(S.me())
+                        rec(("step", S.me(), "dispatch", rq))
+                return h
+            conn._HANDLERS = dict(conn._HANDLERS)
+            conn._HANDLERS[consts.HANDLE_PING] = _recording(conn._HANDLERS[consts.HANDLE_PING])
         if slow_request:
             def slow_handler(self_, data):
                 out["slow"] = {"thread": S.me(), "start": S.now}
@@ -163,7 +182,7 @@ def scenario(n_clients, with_bg, answer_order, chooser, sync_timeout=2.0, timeou
                 out["slow"]["end"] = S.now
                 return data
             conn._HANDLERS = dict(conn._HANDLERS)
-            conn._HANDLERS[SLOW_HANDLER] = slow_handler
+            conn._HANDLERS[SLOW_HANDLER] = _recording(slow_handler)
 
         deadlines = {}
 
@@ -257,6 +276,7 @@ def scenario(n_clients, with_bg, answer_order, chooser, sync_timeout=2.0, timeou
                     # a request of the peer's own with a slow handler goes into the stream FIRST, the reply right behind it: whoever
                     # reads the request is busy for a while, the reply must not have to wait for that thread
                     out["peer_requests"].append(1000)
+                    rec(("inbound", 1000))
                     ch.inq.append(brine.dump((consts.MSG_REQUEST, 1000, (SLOW_HANDLER, (consts.LABEL_VALUE, ("ping1000",))))))
                 answered.append(c)
                 out.setdefault("answer_time", {})[c] = S.now
@@ -270,6 +290,7 @@ def scenario(n_clients, with_bg, answer_order, chooser, sync_timeout=2.0, timeou
                     # the peer is a client too: a request of its own, to be served by whichever thread reads it
                     pq = 1000 + len(out["peer_requests"])
                     out["peer_requests"].append(pq)
+                    rec(("inbound", pq))
                     ch.inq.append(brine.dump((consts.MSG_REQUEST, pq, (consts.HANDLE_PING, (consts.LABEL_VALUE, ("ping%d" % pq,))))))
             # everything answered: let the background thread stop once the clients are done (and the peer's own requests are served)
             S.block(lambda: all(i in out["return_time"] for i in range(n_clients))
@@ -344,15 +365,28 @@ def make_chooser(seed, stick, starve=True):
 
 
 def model_events(out, n_clients):
-    """map recorded events to the model's alphabet"""
+    """map recorded events to the model's alphabet.  The model numbers messages in the order in which they are issued; a request of
+    the PEER's own is given to the model as a message whose issuer is not looking (proofs/ServeI.v): an `issue` by a phantom thread
+    (identifiers 100, 101, ...: never scheduled again) followed by the message entering the stream.  out["mseq"]: real number -> the model's."""
     evs = []
+    mseq, n_model, n_real = {}, 0, 0
+    out["mseq"] = mseq
     for e in out["events"]:
         if e[0] == "issue":
             evs.append([0, e[1]])
+            if isinstance(e[1], int) and e[1] < n_clients:
+                mseq[n_real] = n_model
+                n_real += 1
+                n_model += 1
+        elif e[0] == "inbound":
+            mseq[e[1]] = n_model
+            evs.append([0, 100 + len([k for k in mseq if k >= 1000]) - 1])
+            evs.append([3, n_model])
+            n_model += 1
         elif e[0] == "answer":
-            evs.append([3, e[1]])
+            evs.append([3, mseq.get(e[1], e[1])])
         elif e[0] == "expire":
-            evs.append([4, e[1]])
+            evs.append([4, mseq.get(e[1], e[1])])
         elif e[0] == "timeout":
             if e[1] != "P":
                 evs.append([2, e[1]])
@@ -365,7 +399,7 @@ def model_events(out, n_clients):
             if pc is None:
                 evs.append([1, e[1]])
             else:
-                evs.append([1, e[1], pc, arg if (what in ("read", "dispatch") and isinstance(arg, int)) else -1])
+                evs.append([1, e[1], pc, mseq.get(arg, arg) if (what in ("read", "dispatch") and isinstance(arg, int)) else -1])
     return evs
 
 
@@ -630,6 +664,7 @@ def run_plans(ctx, which):
         order = list(range(nc)); r.shuffle(order)
         plans.append((nc, bg, order, r.randrange(10**9), r.choice([0.0, 0.1, 0.3, 0.6])))
     batch = []
+    ibatch = []      # runs with requests of the peer's own: replayed in the model with phantom issuers (proofs/ServeI.v)
     import random
     for nc, bg, order, seed, stick in plans:
         chooser = make_chooser(seed, stick)
@@ -685,6 +720,10 @@ def run_plans(ctx, which):
             ctx.case(("mixed", nc, bg, tuple(order), seed, pr, tuple(ex)), nontrivial=True, sample={"case": case, "results": out["results"], "served": len(out["peer_replies"])})
             ctx.count("mixed-runs(inbound requests + exception replies)")
             oracle13_mixed(ctx, case, out, nc, ex)
+            ok_run = not ex and not out["deadlock"] and not out["errors"] and all(out["results"].get(i) == "p%d" % i for i in range(nc))
+            if model and ok_run and all(out["seq_of"].get(i) is not None for i in range(nc)):
+                evs = model_events(out, nc)
+                ibatch.append(([[False] * nc + ([True] if bg else []), evs, list(range(nc)), [out["mseq"].get(out["seq_of"][i], out["seq_of"][i]) for i in range(nc)]], out, case, nc))
     if which == "C13":
         for k in range(40 if ctx.quick else 1000):
             nc = r.choice([2, 2, 3])
@@ -710,8 +749,9 @@ def run_plans(ctx, which):
             ctx.count("polling-threads-runs(serve without waiting for the lock)")
             oracle13(ctx, case, out, nc)
     if which == "C13":
-        # a slow handler in another thread must not hold up a reply that is already in the stream (oracle only: the transition system has
-        # no incoming requests); the client's own deadline (2 virtual seconds) is shorter than the handler (5)
+        # a slow handler in another thread must not hold up a reply that is already in the stream; the client's own deadline (2 virtual
+        # seconds) is shorter than the handler (5).  The run is also replayed in the model: the peer's request is a message whose issuer
+        # is not looking, the serving thread stays at S5 for as long as the handler runs
         for k in range(40 if ctx.quick else 600):
             nc = r.choice([1, 1, 2])
             order = list(range(nc)); r.shuffle(order)
@@ -724,6 +764,10 @@ def run_plans(ctx, which):
             if out.get("slow") and out["slow"]["thread"] == nc:
                 ctx.count("slow-handler-runs:handler-ran-on-the-background-thread")
             oracle13_slow(ctx, case, out, nc)
+            ok_run = not out["deadlock"] and not out["errors"] and all(out["results"].get(i) in ("p%d" % i, "EXC:TimeoutError") for i in range(nc))
+            if model and ok_run and all(out["seq_of"].get(i) is not None for i in range(nc)):
+                evs = model_events(out, nc)
+                ibatch.append(([[False] * nc + [True], evs, list(range(nc)), [out["mseq"].get(out["seq_of"][i], out["seq_of"][i]) for i in range(nc)]], out, case, nc))
     xbatch = []
     if which == "C13":
         for k in range(80 if ctx.quick else 2000):
@@ -756,6 +800,21 @@ def run_plans(ctx, which):
             want_ready = [out["results"][i] == "p%d" % i for i in range(nc)]
             if pcs != want_pcs or [bool(x) for x in readys] != want_ready:
                 ctx.tie_broken("correspondence:final-state", "expiry case %s model pcs %s ready %s real results %s" % (case, pcs, readys, out["results"]))
+    if model and ibatch:
+        outs = model.batch([b[0] for b in ibatch])
+        for (mc, out, case, nc), m in zip(ibatch, outs):
+            ctx.model_traces += 1
+            ctx.count("model-traces-with-inbound-requests")
+            if m[0] != b"ok":
+                ctx.tie_broken("correspondence:event-not-enabled-in-model", "inbound-request case %s model says %r (%d events)" % (case, m, len(mc[1])))
+                continue
+            pcs, readys, disp = m[1], m[2], m[4]
+            want_pcs = [8 if out["results"][i] == "p%d" % i else 9 for i in range(nc)]
+            want_ready = [out["results"][i] == "p%d" % i for i in range(nc)]
+            real_disp = [out["mseq"].get(e[3], e[3]) for e in out["events"] if e[0] == "step" and len(e) > 3 and e[2] == "dispatch"]
+            if pcs != want_pcs or [bool(x) for x in readys] != want_ready or disp != real_disp:
+                ctx.tie_broken("correspondence:final-state", "inbound-request case %s model pcs %s ready %s dispatched %s real results %s dispatched %s"
+                               % (case, pcs, readys, disp, out["results"], real_disp))
     if model and batch:
         outs = model.batch([b[0] for b in batch])
         for (mc, out, case), m in zip(batch, outs):
